@@ -447,30 +447,54 @@ Theorem yearless_driver_stage2 : forall dated_y bs (f : file) off msgs Y ys fb p
 Proof. exact CachesYearWalk.yearless_stage2. Qed.
 Print Assumptions yearless_driver_stage2.
 
-(* NOT PROVED (full statement): yearless_driver_complete - for every bs > 0, file, year-less oracle dated_y (domain
-   hypothesis above), mtime year Y, container and drop plan:
-     obs (c_stream_year dated_y bs f TOL Y None None plan (gate state)) = the spec groups of f, the i-th with the instant
-     t_i where (y_i, t_i) = Model/Year.v assign_years 2 (C11) on the messages; no Panic.
-   CLOSED: (a) the invariant up to the instant and across year changes, the safety of the whole pass; (b) the loop is the
-   walk (yearless_walk_is_gwalk, yearless_walk_is_assign_years); stages 1-2 of the driver (yearless_driver_stage2); a
-   store hit is oracle-free (yearless_store_hit_oracle_free).
-   MISSING, exactly - (c) stage 3 on the reader of yearless_driver_stage2:
-     - the first call is find_sysline(0): when undated lines lead the file it is a SEARCH with the filler-year oracle that
-       builds the first message again; its instant is the pass's only through the parse_datetime LRU cache (one leading
-       byte: the find_sysline LRU cache) - the statement needs `s_on st = true` or a file that begins with a message
-       (yearless_driver_caches_off_refuted, confirmed on the binary built with LRU_CACHE_ENABLE = false);
-     - every later find_sysline of c_stream_win (at each fo_next) is at the begin of a message, all of which are stored: check_store hits (LRU, range or syslines branch), hence oracle-free, and answers with the STORED
-       message - for the LRU branch this needs one more invariant through the pass: every LRU entry holds a message that
-       is stored in `syslines` (true: the cache is emptied at every removal; not carried by year_loop_walk yet);
-     - drop_data_try on a plain file (any plan) removes only messages behind the current one (c_drop_data_try keeps
-       rinv: CachesRunProofs), so the messages ahead stay stored;
-     - the emitted list is then the stored messages in file order = the spec groups (structure: YI) with the instants of
-       `stored`; with --dt-before it is cut at the first message after the bound.
-   With a --dt-after bound the pass stops early (covered by yearless_walk_is_gwalk) and stage 3 meets messages the pass
-   did not store: they are searched with the filler year; no statement is claimed for that case.
-   The composed program (WP-H) would use yearless_driver_complete in the form of streamed_driver_struct; until (c) closes it
-   keeps the pure reader for year-less files; what it can use today: yearless_driver_stage2 (c_stream_year = stage 3 on a
-   reader holding assign_years' instants), yearless_reverse_pass_safe (no Panic) and yearless_find_sysline_year. *)
+(* (c) STAGE 3 ANSWERED FROM THE STORE - yearless_driver_complete: for a file that begins with a message (W4) and without a
+   datetime window, for EVERY drop plan and every container (a streamed file gets the empty plan after
+   disable_drop_data), the year-less driver emits exactly the spec groups of the file, the i-th with the instant C11's
+   assign_years gives the i-th message (sobs = instant and line bytes of an emitted message); no Panic.
+   (i)   through the reverse pass every message of the find_sysline LRU cache is a stored one (CachesYearWalk.lruS);
+   (ii)  every call of stage 3 is at the begin of a message, which is stored: check_store answers it (hit_some), the
+         filler-year oracle is not consulted, the answer is a message of the LRU cache or of `syslines`
+         (check_store_src) and carries the stored instant; its structure is the spec's (the state re-dated with the year
+         the pass ended with satisfies the cache invariant of that year);
+   (iii) drop_data_try(the message before the current one) commutes with the re-dating (drop_try_rd) and removes nothing at
+         or after the current message (drop_step): the messages ahead stay stored, no call falls into a dropped range. *)
+From S4.Proofs Require Import CachesYearStage3.
+
+Theorem yearless_driver_complete : forall dated_y bs (f : file) off msgs Y ys plan st, 0 < bs ->
+  (forall y y' l, dated_y (Some y) l = None <-> dated_y (Some y') l = None) ->
+  let stream := b_stream (l_blk (s_lr st)) in
+  let st1 := if stream then sr_set_lr (lr_set_blk (b_disable_drop (l_blk (s_lr st))) (s_lr st)) st else st in
+  lr_inv bs f (s_lr st1) -> 0 < lenN f ->
+  let begins := map fst (syslines_at (dated_y (Some Y)) f) in
+  Forall2 (fun b m => forall y, inst dated_y f y b = Year.with_year off y m) begins msgs ->
+  Year.assign_years 2 off Y msgs = Some ys ->
+  first_dated_offset (dated_y (Some Y)) f = 0 ->
+  exists st'' sls, c_stream_year dated_y bs f Year.TOL Y None None plan st = (st'', Found sls) /\
+    map (sobs bs f) sls = map (fun gyt => (snd (snd gyt), snd (fst gyt))) (combine (syslines (dated_y (Some Y)) f) ys) /\
+    length ys = length (syslines (dated_y (Some Y)) f).
+Proof. exact CachesYearStage3.yearless_driver_drops. Qed.
+Print Assumptions yearless_driver_complete.
+
+(* ... and with --dt-before alone (no --dt-after): stage 3 is the same scan, cut at the first message whose instant lies
+   after the bound (find_sysline_between_datetime_filters answers Done): the driver emits win_scan None fb of the spec
+   groups dated by assign_years (win_scan: CachesFwdRunProofs, the selection of streamed_window_driver; with fb = None
+   it is the whole list: yearless_driver_complete) *)
+Theorem yearless_driver_complete_dt_before : forall dated_y bs (f : file) off msgs Y ys fb plan st, 0 < bs ->
+  (forall y y' l, dated_y (Some y) l = None <-> dated_y (Some y') l = None) ->
+  let stream := b_stream (l_blk (s_lr st)) in
+  let st1 := if stream then sr_set_lr (lr_set_blk (b_disable_drop (l_blk (s_lr st))) (s_lr st)) st else st in
+  lr_inv bs f (s_lr st1) -> 0 < lenN f ->
+  let begins := map fst (syslines_at (dated_y (Some Y)) f) in
+  Forall2 (fun b m => forall y, inst dated_y f y b = Year.with_year off y m) begins msgs ->
+  Year.assign_years 2 off Y msgs = Some ys ->
+  first_dated_offset (dated_y (Some Y)) f = 0 ->
+  exists st'' sls, c_stream_year dated_y bs f Year.TOL Y None fb plan st = (st'', Found sls) /\
+    map (sobs bs f) sls =
+      win_scan None fb (map (fun gyt => (snd (snd gyt), snd (fst gyt))) (combine (syslines (dated_y (Some Y)) f) ys)) /\
+    length ys = length (syslines (dated_y (Some Y)) f).
+Proof. exact CachesYearStage3.yearless_driver_before. Qed.
+Print Assumptions yearless_driver_complete_dt_before.
+
 (* REFUTED for a reader whose LRU caches are off (latent; the s4 binary runs with them on): stage 3 begins with
    find_sysline(0); when undated lines lead the file the first message is built again with the filler year and keeps the
    instant of the reverse pass only through the parse_datetime / find_sysline LRU caches.  Witness "\n2z\n2b\n", toy
@@ -486,6 +510,16 @@ Theorem yearless_driver_caches_off_refuted :
 Proof. exact CachesYearWalk.yearless_caches_off_witness. Qed.
 Print Assumptions yearless_driver_caches_off_refuted.
 
+(* STILL NOT PROVED (kept _partial): the year-less driver
+   - with --dt-after: the pass stops early (covered: yearless_walk_is_gwalk) and stage 3 meets messages the pass did not
+     store, which are searched with the filler year - no statement is claimed;
+   - on a file that begins with undated lines, caches on: the first call of stage 3, find_sysline(0), is a SEARCH with the
+     filler-year oracle that builds the first message again; its instant is the pass's only through the parse_datetime LRU
+     cache (one leading byte: the find_sysline LRU cache); with the caches off it is the filler year's
+     (yearless_driver_caches_off_refuted, confirmed on the binary built with LRU_CACHE_ENABLE = false).
+   The composed program (WP-H) uses yearless_driver_complete (shape of streamed_driver_struct: c_stream_year on a reader
+   whose LineReader can read every block, e.g. the gate state of a plain file or of a streamed file after
+   disable_drop_data); yearless_reverse_pass_safe gives "no Panic" of the pass in every case. *)
 Theorem yearless_driver_partial : forall dated_y bs (f : file) tol fa fuel st Y fo, 0 < bs ->
   (forall y y' l, dated_y (Some y) l = None <-> dated_y (Some y') l = None) ->
   lr_inv bs f (s_lr st) ->
